@@ -10,7 +10,7 @@ META = {
     "level": "other",
     "explanation": (
         "P (proved for every path of the real HippoClientProtocol.datagram_received, with the deserializer, ban list and message "
-        "handlers abstracted by effect summaries): a reliable packet is acknowledged exactly once per arrival, with exactly its "
+        "handlers abstracted by effect summaries; stated over the ghost call log only, no local of the body is named): a reliable packet is acknowledged exactly once per arrival, with exactly its "
         "packet id, whether or not it was seen before; the session-level and the region-level subscribers are each invoked iff the "
         "packet is unreliable or Circuit.track_reliable reports it new, and at most once; a subscriber failure at session level does "
         "not skip the region level. Circuit.track_reliable (new iff not in the window; window gains it), Circuit.prepare_message "
@@ -23,6 +23,9 @@ META = {
         "dedupe window of 1000 ids: a retransmission arriving after 1000 newer reliable packets is delivered again (stated limit of the code)",
     ],
 }
+
+
+ACCEPTED = "ncalls('validate') == 1 and called_with('validate', lambda result: result)"
 
 
 def register(reg):
@@ -44,32 +47,38 @@ def register(reg):
         params={"data": "Bytes", "source_addr": "Opaque:Addr"}, param_names=["data", "source_addr"],
         externals={
             "self.session.region_by_circuit_addr": {"returns": "Opt[Obj:ClientRegion]", "fresh": False, "doc": "region lookup"},
-            "self.deserializer.deserialize": {"returns": "Obj:Message", "may_raise": "AnyException",
+            "self.deserializer.deserialize": {"returns": "Obj:Message", "may_raise": "AnyException", "record_as": "deser", "record_result": True,
                                               "post": ["not is_none(result.packet_id)"], "doc": "fresh message from the wire"},
-            "self.message_xml.validate_udp_msg": {"returns": "Bool", "doc": "UDP ban list"},
+            "self.message_xml.validate_udp_msg": {"returns": "Bool", "record_as": "validate", "record_result": True, "doc": "UDP ban list"},
             "region.circuit.collect_acks": {"record_as": "collect", "doc": "completes futures of acked sends"},
             "self.session.message_handler.handle": dict(handler, record_as="session_handler"),
             "region.message_handler.handle": dict(handler, record_as="region_handler"),
         },
         may_raise={"PermissionError": "", "AnyException": ""},
+        # stated over the call log only (no local of the body is named): ACCEPTED = the datagram came from a known region,
+        # decoded, and its message may arrive over UDP; msg_ is the decoded message
         ensures=[
             # always ack a reliable packet, exactly once per arrival, with exactly its id
-            "implies(defined('should_handle') and (message.send_flags & 64) != 0, ncalls('send_acks') == 1 and "
-            "called_with('send_acks', lambda to_ack, direction, packet_id: len(to_ack) == 1 and to_ack[0] == val(message.packet_id)))",
-            "implies(defined('should_handle') and (message.send_flags & 64) == 0, ncalls('send_acks') == 0 and truthy(should_handle))",
-            # dedupe decision is exactly track_reliable's answer
-            "implies(defined('should_handle') and (message.send_flags & 64) != 0, ncalls('track_reliable') == 1 and "
-            "called_with('track_reliable', lambda packet_id, result: packet_id == val(message.packet_id) and result == truthy(should_handle)))",
+            "implies(" + ACCEPTED + ", called_with('deser', lambda result_: implies((result_.send_flags & 64) != 0, ncalls('send_acks') == 1 and "
+            "called_with('send_acks', lambda to_ack, direction, packet_id: len(to_ack) == 1 and to_ack[0] == val(result_.packet_id)))))",
+            # an unreliable packet is never acknowledged and always delivered, to both levels, once
+            "implies(" + ACCEPTED + ", called_with('deser', lambda result_: implies((result_.send_flags & 64) == 0, ncalls('send_acks') == 0 and "
+            "ncalls('track_reliable') == 0 and ncalls('session_handler') == 1 and ncalls('region_handler') == 1)))",
+            # a reliable packet is delivered to each level iff the dedupe window reports it new - asked once, about its own id
+            "implies(" + ACCEPTED + ", called_with('deser', lambda result_: implies((result_.send_flags & 64) != 0, ncalls('track_reliable') == 1 and "
+            "called_with('track_reliable', lambda packet_id, result: packet_id == val(result_.packet_id) and "
+            "iff(result, ncalls('session_handler') == 1) and iff(result, ncalls('region_handler') == 1)))))",
+            "ncalls('session_handler') <= 1 and ncalls('region_handler') <= 1",
             # acks carried by the packet are collected on every arrival, duplicate or not
-            "implies(defined('should_handle'), ncalls('collect') == 1)",
-            # both subscriber levels: iff new (or unreliable), at most once
-            "implies(defined('should_handle'), iff(truthy(should_handle), ncalls('session_handler') == 1) and ncalls('session_handler') <= 1)",
-            "implies(defined('should_handle'), iff(truthy(should_handle), ncalls('region_handler') == 1) and ncalls('region_handler') <= 1)",
+            "implies(" + ACCEPTED + ", ncalls('collect') == 1 and called_with('deser', lambda result_: called_with('collect', lambda arg0: arg0 == result_)))",
+            # nothing is acknowledged, collected or delivered for a datagram that was not accepted
+            "implies(not (" + ACCEPTED + "), ncalls('send_acks') == 0 and ncalls('collect') == 0 and ncalls('session_handler') == 0 and ncalls('region_handler') == 0)",
         ],
         ensures_on_raise=[
-            # the only exception allowed past the dedupe point is the region-level handler's own failure, after it was invoked once
-            "implies(defined('should_handle') and truthy(should_handle), ncalls('session_handler') == 1 and ncalls('region_handler') == 1)",
-            "implies(defined('should_handle') and not truthy(should_handle), False)",
+            # the only exception allowed past the dedupe point is the region-level handler's own failure, after both levels were invoked once
+            "implies(" + ACCEPTED + ", ncalls('session_handler') == 1 and ncalls('region_handler') == 1 and ncalls('collect') == 1 and "
+            "called_with('deser', lambda result_: implies((result_.send_flags & 64) != 0, ncalls('send_acks') == 1)))",
+            "implies(not (" + ACCEPTED + "), ncalls('send_acks') == 0 and ncalls('collect') == 0 and ncalls('session_handler') == 0 and ncalls('region_handler') == 0)",
         ],
         frame=["*.direction", "*.sender", "*.seen_reliable"]))
     from contracts import c19b_contracts
